@@ -10,6 +10,8 @@ from harness import h_join
 
 
 def split_stage(ck, K, B):
+    if ck._skip('E1-split_table'):
+        return
     res, wall = split.run(K, B)
     out = dict(obligations=len(res), discharged=sum(1 for r in res if r['status'] == 'unsat'),
                solver_s=sum(r['solver_s'] for r in res), queries=sum(r['queries'] for r in res),
